@@ -8,6 +8,7 @@ import (
 	"testing"
 	"time"
 
+	"github.com/fiorix/go-diameter/diam"
 	"verif.local/vs"
 )
 
@@ -91,6 +92,10 @@ func c19Scenario(nUpdates int) func() schedScenario {
 					if p.Code != 200 || p.Granted != p.Req || p.VT > 2000 {
 						fs = append(fs, Finding{"probe-after-faults-fails", fmt.Sprintf("after the delayed answers, with prompt peers again, a fresh update requesting %d units answered %d granted %d after %d ms (updates before: %v)", p.Req, p.Code, p.Granted, p.VT, rs)})
 					}
+				}
+				// no exchange may be given up before its 5 s are over (a lost answer must not eat into the time of later exchanges)
+				for _, ab := range diam.MemAbandoned(4900 * time.Millisecond) {
+					fs = append(fs, Finding{"exchange-abandoned-before-timeout", "connection " + ab + fmt.Sprintf(" (updates: %v)", rs)})
 				}
 				return strings.Join(parts, " "), fs
 			},
